@@ -8,6 +8,7 @@ import (
 	"encoding/json"
 	"fmt"
 	"os"
+	"os/exec"
 	"sort"
 	"strings"
 	"sync"
@@ -324,6 +325,42 @@ func ReplayFile(path string) int {
 	}
 	fmt.Fprintln(os.Stderr, "family not found or not replayable:", doc.Family)
 	return 2
+}
+
+// RunIsolated evaluates one input of a family in a child process under an address-space limit,
+// for inputs that may take the whole process down (fatal "out of memory" is not recoverable):
+// a crash of the child is reported as the violation it is instead of killing the check.
+func RunIsolated(checkID, family string, input any) string {
+	self, err := os.Executable()
+	if err != nil {
+		return "HARNESS cannot find own executable: " + err.Error()
+	}
+	f, err := os.CreateTemp("/var/tmp", "verif-isolated-*.json")
+	if err != nil {
+		return "HARNESS " + err.Error()
+	}
+	defer os.Remove(f.Name())
+	doc := map[string]any{"property": checkID, "sequential": true, "tier": "quick", "family": family, "input": input}
+	b, _ := json.Marshal(doc)
+	_, _ = f.Write(b)
+	_ = f.Close()
+	cmd := exec.Command("sh", "-c", `ulimit -v 6000000; exec "$0" replay "$1"`, self, f.Name())
+	cmd.Env = append(os.Environ(), "VERIF_ISOLATED=1")
+	out, err := cmd.CombinedOutput()
+	if err == nil {
+		return ""
+	}
+	text := string(out)
+	if ee, ok := err.(*exec.ExitError); ok && ee.ExitCode() == 1 {
+		if i := strings.Index(text, "\n  "); i >= 0 {
+			return strings.TrimSpace(text[i:])
+		}
+		return strings.TrimSpace(text)
+	}
+	if len(text) > 300 {
+		text = text[:300]
+	}
+	return "the process crashed (not a recoverable panic): " + strings.TrimSpace(text)
 }
 
 // Main is the entry point of the seq binary.
